@@ -543,16 +543,20 @@ func (pl *planner) dropDeadClosures(body *ast.BlockStmt) {
 			if !ok {
 				return false
 			}
-			for cv := range pl.closures {
-				if cv.Name() == rid.Name && pl.closures[cv].inl == pl.closures[cv].uses && pl.closures[cv].inl > 0 {
-					v = cv
+			if o, _ := pl.useOf(rid).(*types.Var); o != nil {
+				// a blank use in the source (or left by an earlier round)
+				if h := pl.closures[o]; h != nil && h.inl == h.uses && h.inl > 0 {
+					v = o
+				}
+			} else if !rid.Pos().IsValid() {
+				// the `_ = name` added in this round has no position and no type information
+				for cv := range pl.closures {
+					if cv.Name() == rid.Name && pl.closures[cv].inl == pl.closures[cv].uses && pl.closures[cv].inl > 0 {
+						v = cv
+					}
 				}
 			}
 			if v == nil {
-				return false
-			}
-			// only blanks we generated have no position
-			if rid.Pos().IsValid() {
 				return false
 			}
 		}
@@ -588,6 +592,7 @@ func (pl *planner) findClosures() {
 	info := pl.pkg.TypesInfo
 	for _, f := range pl.pkg.Syntax {
 		called := map[*ast.Ident]bool{}
+		blank := map[*ast.Ident]bool{} // `_ = f`: neither a call nor a reason to keep f a value
 		cand := map[*types.Var]*ast.FuncLit{}
 		ast.Inspect(f, func(n ast.Node) bool {
 			switch x := n.(type) {
@@ -596,6 +601,13 @@ func (pl *planner) findClosures() {
 					called[id] = true
 				}
 			case *ast.AssignStmt:
+				if x.Tok == token.ASSIGN && len(x.Lhs) == 1 && len(x.Rhs) == 1 {
+					if l, ok := x.Lhs[0].(*ast.Ident); ok && l.Name == "_" {
+						if r, ok := x.Rhs[0].(*ast.Ident); ok {
+							blank[r] = true
+						}
+					}
+				}
 				if x.Tok == token.DEFINE && len(x.Lhs) == 1 && len(x.Rhs) == 1 {
 					if id, ok := x.Lhs[0].(*ast.Ident); ok {
 						if lit, ok := x.Rhs[0].(*ast.FuncLit); ok {
@@ -616,6 +628,9 @@ func (pl *planner) findClosures() {
 		for id, o := range info.Uses {
 			v, ok := o.(*types.Var)
 			if !ok || cand[v] == nil {
+				continue
+			}
+			if blank[id] {
 				continue
 			}
 			nUse[v]++
